@@ -27,7 +27,6 @@ func (g *v15g) fresh() uint32 {
 	if g.r.Chance(1, 12) {
 		g.next += 2 * uint32(g.r.Intn(3)) // skipped ids are implicitly closed
 	}
-	g.all = append(g.all, id)
 	return id
 }
 
@@ -316,6 +315,9 @@ func (g *v15g) emit(s string) { g.ops = append(g.ops, s) }
 func (g *v15g) openOne(kind string) string {
 	sid := g.fresh()
 	tok := g.headers(sid, kind)
+	if kind != "mw" || g.r.Chance(1, 10) {
+		g.all = append(g.all, sid)
+	}
 	if kind == "ok" || kind == "cs" {
 		g.open = append(g.open, sid)
 	}
@@ -383,7 +385,7 @@ func (g *v15g) step() {
 		g.emit("c SA")
 	case k < 66: // DATA
 		sid, ok := g.pick(g.all)
-		if !ok {
+		if !ok || r.Chance(1, 40) {
 			sid = g.next
 		}
 		es := r.Intn(2)
@@ -461,6 +463,7 @@ func v15Gen(r *vu.Rng, i int) []string {
 			for n := r.Range(1, 5*g.adv+3); n > 0; n-- {
 				sid := g.fresh()
 				toks = append(toks, g.headers(sid, "ok"))
+				g.all = append(g.all, sid)
 				g.handler = append(g.handler, sid)
 				if r.Chance(9, 10) {
 					toks = append(toks, fmt.Sprintf("R:%d", sid))
